@@ -307,7 +307,10 @@ class CFG:
             self._link(preds, subj.id)
             if may_raise(st.subject):
                 self._edge(subj.id, ctx.exc, 'exc')
-            cur = [subj.id]
+            sd = self._new('done', st)
+            self.done_node.setdefault(id(st), sd.id)
+            self._edge(subj.id, sd.id)
+            cur = [sd.id]
             outs = []
             for case in st.cases:
                 tn = self._new('test', case.pattern)
